@@ -27,7 +27,7 @@ import numpy as np
 from lib import core, gen, oracle, graphcap, grapheval, dagcap
 
 EXTRACTORS = ["Kernels"]
-EXTRA_PROPS = ["C05Dag"]
+EXTRA_PROPS = ["C05Dag", "C05Dag2"]
 BACKENDS = [None, "numpy", "numpy.numpylike", "numpy.einsum"]
 UPDATE_OPS = ["set_at", "add_at", "subtract_at"]
 
